@@ -1,4 +1,5 @@
 import StatimeModel.Lemmas.Fml
+import StatimeModel.Generated.Qualification
 import StatimeModel.Lemmas.FmlSteady
 import StatimeModel.Lemmas.FmlMulti
 import StatimeModel.Generated.Consts
@@ -732,5 +733,34 @@ example :
     lastQualified [.announce (annOf 5 1 10 0), .bmca 1000] = some false ∧
     lastQualified [.announce (annOf 5 1 10 0), .announce (annOf 5 1 9 0), .bmca 1000] = some false := by
   decide +kernel
+
+/-! ### the qualification rules as translated from the source on this run
+(`translator/extract_qualified.py` → `Generated/Qualification.lean`, interpreter `Lemmas/QualGen.lean`) -/
+section Translated
+open Statime.QualGen
+
+/-- **`is_announce_message_qualified` as translated on this run is the model's `FML.qualified`**: the own-clock
+rule, the sequence-number freshness rule against the last stored message of that master (operator and bound,
+`u16::MAX / 2` and named constants evaluated) and the stepsRemoved cut-off (operator and bound), for every foreign
+master list and Announce -/
+theorem generated_qualification_is_model (l : FML) (a : Ann) :
+    ∀ rules, Generated.qualificationRules = some rules → evalQualified rules l a = l.qualified a := by
+  intro rules h
+  unfold Generated.qualificationRules at h
+  cases h
+  all_goals (
+    unfold evalQualified FML.qualified FML.stale
+    simp only [List.all_cons, List.all_nil, Bool.and_true, QRule.rejects, exceeds, seqStale, SEQ_HALF, STEPS_CUTOFF, if_true]
+    have e1 : (!decide (a.hdr.src.clock = l.own.clock)) = decide (a.hdr.src.clock ≠ l.own.clock) := by simp
+    have e3 : (!decide (255 ≤ a.body.steps)) = decide (a.body.steps < 255) := by
+      by_cases h : 255 ≤ a.body.steps
+      · have : ¬ a.body.steps < 255 := by omega
+        simp [h, this]
+      · have : a.body.steps < 255 := by omega
+        simp [h, this]
+    rw [e1, e3, Bool.and_assoc]
+    rfl)
+
+end Translated
 
 end Statime.C06
